@@ -32,6 +32,7 @@ import (
 var (
 	watchdogFull  = 20 * time.Second // first detection of a hang: 5-6 orders of magnitude above the normal cost
 	watchdogShort = 3 * time.Second  // after a hang has been proven once in this process (shrinking, re-run)
+	leakPoll      = 5 * time.Second  // how long server goroutines may take to disappear after shutdown completed
 	hangProven    atomic.Bool        // a goroutine was found stuck inside miekg/dns once already
 	wedged        atomic.Bool        // stuck goroutines could not be rescued: later cases cannot be judged
 )
@@ -270,8 +271,15 @@ func (w spyWriter) Write(p []byte) (int, error) {
 
 func (r *run) newServer() *dns.Server {
 	srv := &dns.Server{
-		ReadTimeout:       time.Hour, // a lost wake-up must not be rescued by a timeout (I7)
-		IdleTimeout:       func() time.Duration { return time.Hour },
+		ReadTimeout: time.Hour, // a lost wake-up must not be rescued by a timeout (I7)
+		// IdleTimeout is called once per connection, by the connection's goroutine, before it
+		// looks at the started flag for the first time: an interposition point of its own
+		IdleTimeout: func() time.Duration { r.log.Point("serveconn.start"); return time.Hour },
+		// the accept policy runs between the read and the handler
+		MsgAcceptFunc: func(dh dns.Header) dns.MsgAcceptAction {
+			r.log.Pointf("accept.policy(%d,%d)", dh.Id/16, dh.Id%16)
+			return dns.DefaultMsgAcceptFunc(dh)
+		},
 		Handler:           dns.HandlerFunc(r.handler),
 		NotifyStartedFunc: func() { r.log.Point("srv.started") },
 		DecorateReader:    func(rd dns.Reader) dns.Reader { return &spyReader{Reader: rd, r: r} },
@@ -389,29 +397,82 @@ func (r *run) client(j int, c Client) {
 	}
 	r.log.Pointf("client(%d).dial", j)
 	co := &dns.Conn{Conn: conn}
-	for qi := range c.Reqs {
-		q := qi + 1
+	mk := func(q int) *dns.Msg {
 		m := new(dns.Msg)
 		m.SetQuestion(qname(j, q), dns.TypeTXT)
 		m.Id = uint16(j*16 + q)
-		if err := co.WriteMsg(m); err != nil {
-			r.log.Addf("client(%d).senderr(%d)", j, q)
-			return
-		}
-		r.log.Pointf("client(%d).sent(%d)", j, q)
-		if qi == len(c.Reqs)-1 && c.Close == "afterSend" {
-			break
-		}
+		return m
+	}
+	// recv reads one reply and checks that it is the client's own; want = 0 accepts any outstanding q
+	recv := func(want int) bool {
 		rep, err := co.ReadMsg()
 		if err != nil {
-			r.log.Addf("client(%d).recverr(%d)", j, q)
-			return
+			r.log.Addf("client(%d).recverr(%d)", j, want)
+			return false
 		}
-		if rep.Id != m.Id || len(rep.Answer) != 1 || rep.Answer[0].(*dns.TXT).Txt[0] != token(j, q) {
-			r.violate("I2: client %d request %d got a reply that is not its own: %v", j, q, rep)
-			return
+		q := int(rep.Id) % 16
+		if int(rep.Id)/16 != j || q < 1 || q > len(c.Reqs) || (want != 0 && q != want) ||
+			len(rep.Answer) != 1 || rep.Answer[0].(*dns.TXT).Txt[0] != token(j, q) {
+			r.violate("I2: client %d (waiting for request %d) got a reply that is not its own: %v", j, want, rep)
+			return false
 		}
 		r.log.Pointf("client(%d).recv(%d)", j, q)
+		return true
+	}
+	ok := true
+	if c.Pipeline {
+		for qi := range c.Reqs {
+			if err := co.WriteMsg(mk(qi + 1)); err != nil {
+				r.log.Addf("client(%d).senderr(%d)", j, qi+1)
+				ok = false
+				break
+			}
+			r.log.Pointf("client(%d).sent(%d)", j, qi+1)
+		}
+		if ok && c.Close != "afterSend" {
+			for qi := range c.Reqs {
+				want := 0 // datagram replies may arrive in any order; a stream keeps the order
+				if r.s.stream() {
+					want = qi + 1
+				}
+				if !recv(want) {
+					ok = false
+					break
+				}
+			}
+		}
+	} else {
+		for qi := range c.Reqs {
+			q := qi + 1
+			if err := co.WriteMsg(mk(q)); err != nil {
+				r.log.Addf("client(%d).senderr(%d)", j, q)
+				ok = false
+				break
+			}
+			r.log.Pointf("client(%d).sent(%d)", j, q)
+			if qi == len(c.Reqs)-1 && c.Close == "afterSend" {
+				break
+			}
+			if !recv(q) {
+				ok = false
+				break
+			}
+		}
+	}
+	if !ok {
+		return
+	}
+	if c.Close == "end" && c.Partial > 0 && r.s.stream() {
+		// an incomplete frame: the server is left in the middle of a read
+		b, _ := mk(1).Pack()
+		fr := append([]byte{byte(len(b) >> 8), byte(len(b))}, b...)
+		n := 1
+		if c.Partial == 2 {
+			n = 2 + len(b)/2
+		}
+		if _, err := conn.Write(fr[:n]); err == nil {
+			r.log.Pointf("client(%d).partial", j)
+		}
 	}
 	switch c.Close {
 	case "afterRecv", "afterSend":
@@ -789,7 +850,7 @@ func (r *run) exemptI2(j, q int) bool {
 	}
 	if j >= 1 && j <= len(r.s.Clients) {
 		c := r.s.Clients[j-1]
-		if c.Close == "afterSend" && q == len(c.Reqs) {
+		if c.Close == "afterSend" && (q == len(c.Reqs) || c.Pipeline) {
 			return true
 		}
 	}
@@ -803,7 +864,7 @@ func (r *run) awaitReplies() error {
 			if r.exemptI2(j, q) {
 				continue
 			}
-			if r.log.WaitAny(2*time.Second, fmt.Sprintf("client(%d).recv(%d)", j, q), fmt.Sprintf("client(%d).recverr(%d)", j, q)) != 0 {
+			if r.log.WaitAny(10*time.Second, fmt.Sprintf("client(%d).recv(%d)", j, q), fmt.Sprintf("client(%d).recverr(%d)", j, q)) != 0 {
 				r.rescue()
 				return r.fail("I2: handler (%d,%d) wrote its reply without error but client %d did not receive it", j, q, j)
 			}
@@ -950,7 +1011,7 @@ func (r *run) closedAndLeakFree() error {
 			return r.fail("I6: UDP socket not closed after shutdown (SetReadDeadline returned %v)", err)
 		}
 	}
-	deadline := time.Now().Add(2 * time.Second)
+	deadline := time.Now().Add(leakPoll)
 	for {
 		g := dnsGoroutines()
 		if len(g) == 0 {
@@ -961,7 +1022,7 @@ func (r *run) closedAndLeakFree() error {
 		}
 		if time.Now().After(deadline) {
 			r.rescue()
-			return r.fail("I6: %d goroutine(s) of the server remain 2s after shutdown completed:\n%s", len(g), clip(strings.Join(g, "\n\n"), 4000))
+			return r.fail("I6: %d goroutine(s) of the server remain 5s after shutdown completed:\n%s", len(g), clip(strings.Join(g, "\n\n"), 4000))
 		}
 		time.Sleep(2 * time.Millisecond)
 	}
